@@ -1,6 +1,8 @@
 import Umya.Driver.Proto
+import Umya.Model.CoordCanon
 namespace Umya.Driver.C17
 open Umya.Coord Umya.Proto Umya.Dec
+open Umya.Annot (canonAreaB nameTextAnyB Address DefName undouble)
 
 def refStr : Option Ref → String
   | some r => s!"{r.num}/{if r.lock then 1 else 0}"
@@ -16,6 +18,8 @@ def parseRef (s : String) : Option (Option Ref) :=
       | some n, some l => some (some ⟨n, l == 1⟩)
       | _, _ => none
     | _ => none
+
+def bit (b : Bool) : String := if b then "1" else "0"
 
 def handle (args : List String) : String :=
   match args with
@@ -64,6 +68,29 @@ def handle (args : List String) : String :=
     match decodeStr a, decodeStr b with
     | some a, some b => encodeStr (addressText a b (p == "2"))
     | _, _ => "bad-op"
+  -- parse-then-print (`Umya/Thm/C17Parse.lean`): the reply leads with the theorem's decidable hypothesis on the text
+  | ["pp", "coord", h] =>
+    match decodeStr h with
+    | some s => s!"{bit (canonCellB s)} {match coordReprint s with | some t => encodeStr t | none => "none"}"
+    | none => "bad-op"
+  | ["pp", "range", h] =>
+    match decodeStr h with
+    | some s => s!"{bit (canonRangeB s)} {resStr encodeStr (rangeReprint s)}"
+    | none => "bad-op"
+  | ["pp", "addr", h] =>
+    match decodeStr h with
+    | some s => s!"{bit (addrPlainB s)} {encodeStr (addrRejoin s)}"
+    | none => "bad-op"
+  | ["pp", "area", h] =>
+    match decodeStr h with
+    | some s => s!"{bit (canonAreaB s)} {resStr (fun (a : Address) => encodeStr a.text) (Address.parse (undouble s))}"
+    | none => "bad-op"
+  | ["pp", "name", h, g] =>
+    match decodeStr h with
+    | some s =>
+      let r := resStr (fun (d : DefName) => encodeStr d.text) (DefName.setAddress {} s)
+      if g = "1" then s!"{bit (nameTextAnyB s)} {r}" else s!"? {r}"
+    | none => "bad-op"
   | _ => "bad-op"
 
 end Umya.Driver.C17
